@@ -27,7 +27,12 @@ DPool == { xcom, <<88, DOT, 67, 79, 77>>, xcom \o <<DOT>>, xcom \o <<DOT, DOT>>,
            \* the 253 / 254 / 255 boundaries of the whole name, with and without root dot
            JoinWith(<<A(63), A(63), A(63), A(57), S_com>>, DOT), JoinWith(<<A(63), A(63), A(63), A(57), S_com>>, DOT) \o <<DOT>>,
            JoinWith(<<A(63), A(63), A(63), A(58), S_com>>, DOT), JoinWith(<<A(63), A(63), A(63), A(58), S_com>>, DOT) \o <<DOT>>,
-           JoinWith(<<A(63), A(63), A(63), A(59), S_com>>, DOT), <<>>, <<DOT>>, <<97, DOT, 97, 97, 97>>, <<97, DOT, 97, 114, 112, 97>> }
+           JoinWith(<<A(63), A(63), A(63), A(59), S_com>>, DOT), JoinWith(<<A(63), A(63), A(63), A(60), S_com>>, DOT),
+           JoinWith(<<A(63), A(63), A(63), A(61), S_com>>, DOT), JoinWith(<<A(63), A(63), A(63), A(62), S_com>>, DOT),
+           JoinWith(<<A(63), A(63), A(63), A(61), <<120>>, S_com>>, DOT),
+           \* an underscore (or another non-LDH byte) inside the last label
+           <<120, DOT, 99, USCORE, 111, 109>>, <<120, DOT, 109, 121, USCORE, 105, 110, 102, 111>>, <<109, 121, USCORE, 104, 111, 115, 116>>,
+           <<120, DOT, 99, 33, 111, 109>>, <<>>, <<DOT>>, <<97, DOT, 97, 97, 97>>, <<97, DOT, 97, 114, 112, 97>> }
 FamPool == { l \o <<AT>> \o d : l \in LPool, d \in DPool }
 FamLen  == UNION { { A(n) \o <<AT>> \o xcom,
                      <<DQ>> \o A(n - 2) \o <<DQ, AT>> \o xcom,
@@ -36,10 +41,15 @@ FamLen  == UNION { { A(n) \o <<AT>> \o xcom,
                      A(n - 2) \o <<195, 169, AT>> \o xcom,
                      <<DQ, 97, AT>> \o A(n - 4) \o <<DQ, AT>> \o xcom,           \* an '@' inside a quoted local part of n octets
                      <<DQ, AT>> \o A(n - 3) \o <<DQ, AT, LBR, 49, DOT, 50, DOT, 51, DOT, 52, RBR>>,
-                     A(n) \o <<AT>>, A(n) \o <<AT, AT>>, A(n), <<AT>> \o A(n), A(n) \o <<AT, DOT>>, A(n) \o <<AT, LBR>> } : n \in 58..70 }
+                     A(n) \o <<AT>>, A(n) \o <<AT, AT>>, A(n), <<AT>> \o A(n), A(n) \o <<AT, DOT>>, A(n) \o <<AT, LBR>>,
+                     \* over-long AND syntactically wrong local parts (which reason is reported must not depend on the mode)
+                     A(40) \o <<LPAR>> \o A(n - 41) \o <<AT>> \o xcom, A(n - 1) \o <<DOT, AT>> \o xcom, A(30) \o <<DOT, DOT>> \o A(n - 32) \o <<AT>> \o xcom,
+                     <<DOT>> \o A(n - 1) \o <<AT>> \o xcom, A(n - 1) \o <<1, AT>> \o xcom, A(n - 1) \o <<SP, AT>> \o xcom } : n \in 58..70 }
            \cup UNION { { A(n) \o <<AT>> \o xcom, JoinWith([i \in 1..((n + 1) \div 2) |-> <<97>>], DOT) \o <<AT>> \o xcom,
                           <<DQ>> \o A(n) \o <<DQ, AT>> \o xcom, <<120, AT>> \o A(n) \o <<DOT>> \o S_com,
                           <<120, AT>> \o JoinWith(<<A(n), A(n), A((n % 60) + 1), S_com>>, DOT) } : n \in 1..57 }
+           \* the last label (the one looked up in the TLD table) at every length 1..64, lower and upper case
+           \cup UNION { { <<120, AT, 120, DOT>> \o A(n), <<120, AT, 120, DOT>> \o Rep(90, n), <<120, AT>> \o A(n) } : n \in 1..64 }
 Family == FamPool \cup FamLen
 
 Bucket(x) == IF Len(x) = 0 THEN 0 ELSE (Len(x) * 7 + x[Len(x)] + x[(Len(x) + 1) \div 2]) % 64
